@@ -174,10 +174,16 @@ func (c *CEnv) resolveType(x ast.Expr) types.Type {
 	case *ast.ParenExpr:
 		return c.resolveType(x.X)
 	case *ast.ArrayType:
-		if x.Len == nil {
-			if t := c.resolveType(x.Elt); t != nil {
+		if t := c.resolveType(x.Elt); t != nil {
+			if x.Len == nil {
 				return types.NewSlice(t)
 			}
+			return types.NewArray(t, 1)
+		}
+	case *ast.MapType:
+		k, v := c.resolveType(x.Key), c.resolveType(x.Value)
+		if k != nil && v != nil {
+			return types.NewMap(k, v)
 		}
 	case *ast.SelectorExpr:
 		if id, ok := x.X.(*ast.Ident); ok {
@@ -305,7 +311,7 @@ func (c *CEnv) ev(x ast.Expr) CVal {
 		}
 		_, unbox := e.boxFn(t)
 		return CVal{S: fmt.Sprintf("(%s %s)", unbox, v.S), T: t}
-	case *ast.ArrayType:
+	case *ast.ArrayType, *ast.MapType:
 		if t := c.resolveType(x); t != nil {
 			return CVal{IsType: t}
 		}
@@ -886,6 +892,19 @@ func (c *CEnv) call(x *ast.CallExpr) CVal {
 			k = c.lit(k, sv.T)
 		}
 		return CVal{S: fmt.Sprintf("(select %s %s)", sv.S, k.S), T: boolT}
+	case "upd":
+		// upd(a, i, v): array a with index i updated to v
+		a := c.ev(arg(0))
+		at, ok := a.T.Underlying().(*types.Array)
+		if !ok {
+			return c.fail("upd on non-array")
+		}
+		i := c.toIdx(c.ev(arg(1)))
+		v := c.ev(arg(2))
+		if v.T == nil {
+			v = c.lit(v, at.Elem())
+		}
+		return CVal{S: fmt.Sprintf("(store %s %s %s)", a.S, i.S, v.S), T: a.T}
 	case "isnan":
 		v := c.ev(arg(0))
 		return CVal{S: "(fp.isNaN " + v.S + ")", T: boolT}
